@@ -3062,7 +3062,9 @@ def transform_pseudo_instructions(items, constants, labels):
                 new_items.append(inst)
                 log_conversion('transform_pseudo_instructions', item, inst)
 
-                inst = ITypeInstruction(item.line, 'addi', rd=rd, rs1=rd, imm=Lo(imm))
+                # (like the jalr of an auipc pair: a position-relative operand is
+                # relative to the li itself, i.e. to the lui, for both halves)
+                inst = ITypeInstruction(item.line, 'addi', rd=rd, rs1=rd, imm=Lo(imm), is_auipc_jump=True)
         elif item.name == 'mv':
             rd, rs = item.args
             inst = ITypeInstruction(item.line, 'addi', rd=rd, rs1=rs, imm=Arithmetic('0'))
